@@ -4,5 +4,10 @@ CONSTANTS
   FirstForms <- NoForms
   MaxLines = 1000
   AsFound_MarkerTestedOnRawLine = FALSE
+  SlotSeq <- MC_SlotSeq
+  DescClasses <- MC_DescClasses
+  MaxDescribed = 1000
+  ModelMaxTime = "2"
+  ModelErrTol = "1e-6"
 POSTCONDITION AllConsumed
 CHECK_DEADLOCK FALSE
